@@ -60,7 +60,15 @@ type chainInfo struct {
 
 // chainWorld builds a world around one main chain owner -> p1 -> ... -> invoker.
 func chainWorld(r *rand.Rand, id int, seed int64, k chainKnobs) (*World, chainInfo) {
-	cast := newCast(seed*1000003 + int64(id))
+	return chainWorldIn(r, id, seed, k, nil, "")
+}
+
+// chainWorldIn: same, with the principals of an existing cast and a prefix for token names
+// (several invocations of one batch share principals and context).
+func chainWorldIn(r *rand.Rand, id int, seed int64, k chainKnobs, cast *Cast, prefix string) (*World, chainInfo) {
+	if cast == nil {
+		cast = newCast(seed*1000003 + int64(id))
+	}
 	service := cast.Ed("service")
 	can := pick(r, abilities)
 	depth := r.Intn(k.MaxDepth + 1)
@@ -82,7 +90,7 @@ func chainWorld(r *rand.Rand, id int, seed int64, k chainKnobs) (*World, chainIn
 	owner := prins[0]
 	with := owner.DID.String()
 
-	w := &World{ID: id, Kind: "chain", Cast: cast, Can: can, Inv: "inv"}
+	w := &World{ID: id, Kind: "chain", Cast: cast, Can: can, Inv: prefix + "inv"}
 	w.Ctx = CtxSpec{Authority: service, SelfIssued: true, Owners: map[string]*Prin{}, Revoked: map[string]bool{},
 		Resolvable: map[string]bool{}, ParserKind: "ed", KeyResolver: map[string]*Prin{}}
 	if info.RSA && r.Intn(4) != 0 {
@@ -119,9 +127,9 @@ func chainWorld(r *rand.Rand, id int, seed int64, k chainKnobs) (*World, chainIn
 	prev := ""
 	for i := 1; i <= depth+1; i++ {
 		isInv := i == depth+1
-		sp := &TokSpec{Name: fmt.Sprintf("d%d", i), Issuer: prins[i-1], Exp: &far}
+		sp := &TokSpec{Name: fmt.Sprintf("%sd%d", prefix, i), Issuer: prins[i-1], Exp: &far}
 		if isInv {
-			sp.Name = "inv"
+			sp.Name = prefix + "inv"
 			sp.Audience = service
 			sp.Caps = []CapSpec{{Can: can, With: with, Nb: claimNb}}
 		} else {
@@ -238,7 +246,7 @@ func chainWorld(r *rand.Rand, id int, seed int64, k chainKnobs) (*World, chainIn
 		// decoys: extra proofs that do not help
 		if k.Decoys > 0 && len(sp.Proofs) > 0 {
 			for n := r.Intn(k.Decoys + 1); n > 0; n-- {
-				dn := fmt.Sprintf("decoy%d_%d", i, n)
+				dn := fmt.Sprintf("%sdecoy%d_%d", prefix, i, n)
 				dec := &TokSpec{Name: dn, Issuer: carol, Audience: sp.Issuer, Exp: &far,
 					Caps: []CapSpec{{Can: can, With: carol.DID.String(), Nb: Cav{}}}}
 				switch r.Intn(5) {
